@@ -881,8 +881,10 @@ impl Eut5 {
                     sink.publish_ack_cb(move |ack, disconnected| {
                         if nb2.reenter.get() {
                             let _ = (sink2.is_ready(), sink2.credit(), sink2.is_open());
-                            // an application that closes its sink when told that the connection is gone
+                            // an application that, told that the connection is gone, tries one more publish (it may not know
+                            // better) and closes its sink
                             if disconnected {
+                                let _ = sink2.publish(ByteString::from_static("late/word")).send_at_most_once(Bytes::new());
                                 sink2.close();
                             }
                         }
